@@ -349,8 +349,8 @@ type TransportLayerCC struct {
 // }
 // }
 
-func (t *TransportLayerCC) packetLen() uint16 {
-	n := uint16(headerLength + packetChunkOffset + len(t.PacketChunks)*2)
+func (t *TransportLayerCC) packetLen() int {
+	n := headerLength + packetChunkOffset + len(t.PacketChunks)*2
 	for _, d := range t.RecvDeltas {
 		if d.Type == TypeTCCPacketReceivedSmallDelta {
 			n++
@@ -374,7 +374,7 @@ func (t *TransportLayerCC) MarshalSize() int {
 		n = (n/4 + 1) * 4
 	}
 
-	return int(n)
+	return n
 }
 
 func (t TransportLayerCC) String() string {
@@ -436,7 +436,7 @@ func (t TransportLayerCC) Marshal() ([]byte, error) {
 	}
 
 	if t.Header.Padding {
-		payload[len(payload)-1] = uint8(t.MarshalSize() - int(t.packetLen()))
+		payload[len(payload)-1] = uint8(t.MarshalSize() - t.packetLen())
 	}
 
 	return append(header, payload...), nil
